@@ -3,7 +3,7 @@
 (* all task interleavings and IndexedDB completion orders the chosen TaskOrder/IdbOrder allow.   *)
 EXTENDS Naturals, Sequences, FiniteSets, TLC, Json
 
-CONSTANTS IdSetC, MaxCommitsC, NSeg, TaskOrderC, IdbOrderC, BugC, FixC, RemoveC
+CONSTANTS IdSetC, MaxCommitsC, NSeg, TaskOrderC, IdbOrderC, BugC, FixC, RemoveC, GenC
 
 AllSegFiles == <<"docs", "post", "terms", "fast", "meta">>     \* write order of the real code
 SegFilesC == SubSeq(AllSegFiles, 1, NSeg)
@@ -23,7 +23,10 @@ RemoveOnce ==
   /\ \A i \in DOMAIN sched : sched[i].a # "remove"
   /\ B!CallRemove(B!Seg(app.k, SegFilesC[1]))
 
-Next == B!Next \/ RemoveOnce
+\* GenC = TRUE (case generation): the page is never closed inside a behaviour; instead every
+\* state is printed as "this schedule, then close" (TLC -simulate evaluates PrintCase on every
+\* successor it generates, so one random walk yields the close points along and beside it).
+Next == IF GenC THEN (B!Next \/ RemoveOnce) /\ closed' = FALSE ELSE B!Next \/ RemoveOnce
 Spec == Init /\ [][Next]_<<pg, idb, app, closed, sched>>
 
 ReloadOpens == B!ReloadOpens
@@ -36,9 +39,13 @@ NoStuck == B!NoStuck
 
 SetToSeq(S) == CHOOSE s \in [1..Cardinality(S) -> S] : \A i, j \in 1..Cardinality(S) : i # j => s[i] # s[j]
 
-\* S->I: -simulate; print the schedule of every behaviour that ends with ClosePage
-PrintCase ==
-  closed => PrintT(<<"CASE", ToJson([task_order |-> TaskOrderC, idb_order |-> IdbOrderC,
-                                     docs |-> [i \in DOMAIN app.docs |-> SetToSeq(app.docs[i])],
-                                     steps |-> sched])>>)
+CloseStep == [a |-> "close", t |-> 0, r |-> 0, op |-> "", path |-> "", n |-> 0]
+Case == [task_order |-> TaskOrderC, idb_order |-> IdbOrderC,
+         docs |-> [i \in DOMAIN app.docs |-> SetToSeq(app.docs[i])],
+         opens |-> B!ReloadOpens,
+         steps |-> IF closed THEN sched ELSE Append(sched, CloseStep)]
+\* S->I: every visited state as a case
+PrintCase == (GenC /\ sched # <<>>) => PrintT(<<"CASE", ToJson(Case)>>)
+\* only the cases whose close leaves an index that does not open (directed S->I cases)
+PrintBadCase == (GenC /\ ~B!ReloadOpens) => PrintT(<<"CASE", ToJson(Case)>>)
 =============================================================================
